@@ -123,12 +123,6 @@ func c14RunCase(r *Run, l *Local, s *c14Set, lines []string, api bool) {
 			}
 			r.Violate(key, "S5-vs-preflight", fmt.Sprintf("set=%q lines=%q: preflight success=%v (%s), specification=%v", s.names, lines, gotAPI, o, want), c14Case{s.names, lines, true})
 		}
-		if gotAPI {
-			// the approved list is echoed byte for byte
-			if !equalStrings(o.get(hACAH), nonNil(lines)) {
-				r.Violate("api-echo", "S5-vs-preflight", fmt.Sprintf("approved ACRH %q echoed as %q", lines, o.get(hACAH)), c14Case{s.names, lines, true})
-			}
-		}
 	}
 }
 
